@@ -325,7 +325,32 @@ def rule_r2(ctx) -> List[R.Inst]:
                             "with jacks avoided exactly one note (the earliest) per distinct column of the window is selected",
                             construct=unparse(first_form[0])[:160]))
         return insts
+    # dict-comprehension form: {cols[ix]: ix for ix in reversed(range(start, end))} — the entry written last for a column wins, so the
+    # window must be walked BACKWARDS for the earliest row to remain
+    for dc in (n for n in walk_no_nested(vm.node) if isinstance(n, ast.DictComp) and len(n.generators) == 1 and not n.generators[0].ifs and
+               isinstance(n.generators[0].target, ast.Name)):
+        ixv = dc.generators[0].target.id
+        it_ = dc.generators[0].iter
+        rev = isinstance(it_, ast.Call) and call_name(it_) == "reversed" and len(it_.args) == 1
+        rng = it_.args[0] if rev else it_
+        if isinstance(rng, ast.Call) and call_name(rng) == "range" and [unparse(a_) for a_ in rng.args] == ["start", "end"] and \
+                unparse(dc.key) == f"cols[{ixv}]" and unparse(dc.value) == ixv:
+            D_ = next((x.targets[0].id for x in walk_no_nested(vm.node) if isinstance(x, ast.Assign) and x.value is dc and isinstance(x.targets[0], ast.Name)), None)
+            uses = [n for n in walk_no_nested(vm.node) if isinstance(n, ast.Assign) and isinstance(n.targets[0], ast.Subscript) and
+                    unparse(n.targets[0].value) == "mask" and unparse(n.targets[0].slice).replace(" ", "") in (f"list({D_}.values())", f"[*{D_}.values()]")]
+            if rev and uses:
+                insts.append(R.ok(rid, "no-jack", file, dc.lineno, idiom="earliest position per distinct column (dict filled walking the window backwards)"))
+            elif uses:
+                insts.append(R.viol(rid, "no-jack", file, dc.lineno,
+                                    "with jacks avoided exactly one note (the earliest) per distinct column of the window is selected; a dict "
+                                    "filled walking the window forwards keeps the LAST row of each column", construct=unparse(dc)[:160]))
+            else:
+                insts.append(R.undec(rid, "no-jack", file, dc.lineno, "how the per-column rows are put into the mask was not recognised"))
+            return insts
     jk = [n for n in walk_no_nested(vm.node) if isinstance(n, ast.ListComp) and "index" in unparse(n)]
+    if not jk:
+        insts.append(R.undec(rid, "no-jack", file, vm.node.lineno, "the selection of one note per column was not recognised"))
+        return insts
     ok_j = len(jk) == 1 and len(jk[0].generators) == 1 and isinstance(jk[0].generators[0].target, ast.Name) and not jk[0].generators[0].ifs and \
         unparse(jk[0].generators[0].iter) == "set(cols_)" and unparse(jk[0].elt) == f"cols_.index({jk[0].generators[0].target.id})"
     insts.append(R.ok(rid, "no-jack", file, (jk[0] if jk else vm.node).lineno, idiom="one (the first) occurrence per distinct column of the window") if ok_j else
